@@ -1211,6 +1211,65 @@ def svrp_last_technician(ctx: Ctx, env: EnvA, sl, root):
     ctx.ob("C01.s", "SVRPEnv.mask:last-technician-index", ok, sl.where, why, construct=f"{sl.fi.qualname}:last-technician:index")
 
 
+def _action_gathers(sl):
+    """(node, source, index) of every gather_by_index / .gather in the values a slot stores"""
+    seen = set()
+    for r in [v for v in sl.td.cells.values() if isinstance(v, vg.S)]:
+        for n in vg.walk(r):
+            if n.id in seen:
+                continue
+            seen.add(n.id)
+            f = nf._fn(n) or ""
+            if f.endswith("gather_by_index"):
+                a = [x for x in n.args[1:] if not (isinstance(x, vg.S) and x.op == "kw")]
+                kw = {x.args[0]: x.args[1] for x in n.args[1:] if isinstance(x, vg.S) and x.op == "kw"}
+                yield n, kw.get("src", a[0] if a else None), kw.get("idx", a[1] if len(a) > 1 else None)
+            elif n.op == "meth" and n.args[1] == "gather" and len(n.args) > 3:
+                yield n, n.args[0], n.args[3]
+            elif f == "torch.gather":
+                a = [x for x in n.args[1:] if not (isinstance(x, vg.S) and x.op == "kw")]
+                kw = {x.args[0]: x.args[1] for x in n.args[1:] if isinstance(x, vg.S) and x.op == "kw"}
+                yield n, kw.get("input", a[0] if a else None), kw.get("index", a[2] if len(a) > 2 else None)
+
+
+def action_index_space(ctx: Ctx, rid: str = "C01.o"):
+    """C01.o the action IS the node index: in `_step` every per-node field gathered with an index built from `td["action"]` alone is
+    read at `action` itself; the one accepted exception is the idiom for a field stored without a depot entry,
+    `clamp(action - 1, 0, ...)`, whose shift is exactly -1.  Any other constant shift books the demand / prize / window of a
+    neighbouring customer on the visit -- silently, since the index stays inside the tensor."""
+    n_sites = 0
+    for cname, (path, _fam) in T.ENVS.items():
+        env = EnvA(ctx.repo, path, cname)
+        sl = env.slot("_step")
+        if sl is None or not env.own("_step") and cname != "CVRPTWEnv":
+            continue
+        ctx.fn(sl.fi)
+        k = 0
+        for n, src, idx in _action_gathers(sl):
+            if not isinstance(idx, vg.S) or not isinstance(src, vg.S) or vg.cells_of(idx) != {"action"}:
+                continue
+            x = nf.strip(idx, True)
+            clamped = False
+            if nf._fn(x) == "torch.clamp" or (x.op == "meth" and x.args[1] == "clamp"):
+                clamped = True
+                x = nf.strip(x.args[1] if x.op == "call" else x.args[0], True)
+            p = nf.poly(x)
+            lin = [(m, c) for m, c in p.terms.items() if m]
+            shift = p.const_term()
+            pure = len(lin) == 1 and lin[0][1] == 1 and len(lin[0][0]) == 1 and lin[0][0][0][1] == 1
+            ok = pure and ((not clamped and shift == 0) or (clamped and shift == -1))
+            n_sites += 1
+            cells = sorted(vg.cells_of(src))
+            ctx.ob(rid, f"{cname}._step:{'+'.join(cells) or 'value'}#{k}:read-at-the-action", ok, (lambda t_: f"{t_[0]}:{t_[1]}" if isinstance(t_, tuple) else sl.where)(vg.site_of(n)),
+                   f"{vg.show(src, 2)[:60]} is read at index {p.show(3)}" + (" (clamped: depot-less field)" if clamped else "") +
+                   ("" if ok else " -- the visit is booked with another node's entry (expected `action`, or clamp(action - 1, 0, ..) for a field without depot entry)"),
+                   construct=f"{cname}._step:gather:{'+'.join(cells)}:index-shift")
+            k += 1
+    if n_sites < 20:
+        raise AnalysisError(f"C01.o: only {n_sites} action-indexed reads found in the routing envs' _step (24 confirmed by hand)")
+
+
+
 def run(ctx: Ctx):
     registries = {
         "context": _registry(ctx, "rl4co/models/nn/env_embeddings/context.py", "env_context_embedding"),
@@ -1225,6 +1284,7 @@ def run(ctx: Ctx):
     op_lengths(ctx)
     depot_first_layout(ctx)
     sdvrp_delivers_what_fits(ctx)
+    action_index_space(ctx)
     for cname, (path, family) in T.ENVS.items():
         env = EnvA(ctx.repo, path, cname)
         rule_a(ctx, env, family)
